@@ -239,10 +239,17 @@ func VerifC02Setup3() {
 	verifC02Many = verifParse("select n, c from `m.csv`;")
 }
 
-// A table of 299..302 records (the loader re-sizes its record buffer at the 301st): every record is
-// read back, in order, with its own cells; the first cell is a symbolic byte.
+// A table of 299..302 records (the loader re-sizes its record buffer at the 301st), or of 300 wide
+// records followed by 200 narrow ones: every record is read back, in order, with its own cells; the
+// first cell is a symbolic byte.
 func VerifC02ManyRecords() {
 	n := 299 + verifChoice("records", 4)
+	// shape 1: 300 wide records followed by 200 narrow ones - the file holds more records than the
+	// size of the first 300 suggests
+	wideThenNarrow := verifChoice("shape", 2) == 1
+	if wideThenNarrow {
+		n = 500
+	}
 	c := verifByte("c")
 	verifAssume(verifOr(verifOr(c == 'p', c == 'q'), c == ' '))
 	b := []byte("n,c\n")
@@ -252,6 +259,9 @@ func VerifC02ManyRecords() {
 			b = append(b, c)
 		} else {
 			b = append(b, 'x')
+		}
+		if wideThenNarrow && i < 300 {
+			b = append(b, "xxxxxxxxxxxxxxxxxxxxxxxx"...)
 		}
 		b = append(b, '\n')
 	}
@@ -273,7 +283,11 @@ func VerifC02ManyRecords() {
 	}
 	if v.RecordLen() > 0 {
 		s, ok := v.RecordSet[0][1][0].(*value.String)
-		verifAssert("the symbolic cell reads back", ok && s.Raw() == string([]byte{c}))
+		want := string([]byte{c})
+		if wideThenNarrow {
+			want += "xxxxxxxxxxxxxxxxxxxxxxxx"
+		}
+		verifAssert("the symbolic cell reads back", ok && s.Raw() == want)
 	}
 	_ = proc.ReleaseResourcesWithErrors()
 	verifObserve("records", int64(v.RecordLen()))
